@@ -50,3 +50,7 @@ package transport
 //@   modifies nothing
 //@ interface Conn.SetMaxWriteDelay(delay time.Duration)
 //@   modifies nothing
+//
+//@ func Dial(urlString string) (conn Conn, err error)
+//@   ensures [conn] err == nil ==> conn != nil
+//@   modifies nothing
